@@ -9,8 +9,12 @@
   "assumed": ["sha512_compress (assumed contract: records byte g_k of the block and state word g_k&7 it was given, per call, in ghosts; new chaining state is an arbitrary value from the harness input)", "psBurnStack (model: no effect)"],
   "mode": "proof",
   "why_proof": "all loops are bounded by the 128-byte block (zero fill up to 128 / up to 120, 8 output words), fully unwound with unwinding assertions; every curlen in [0,127], every length below 2^64-1024 bits and every buffer content is covered symbolically",
+  "cases": [
+    {"name": "curlen_000_055", "defs": ["CLO=0", "CHI=55"]},
+    {"name": "curlen_056_111", "defs": ["CLO=56", "CHI=111"]},
+    {"name": "curlen_112_127", "defs": ["CLO=112", "CHI=127"]}
+  ],
   "unwind": 130,
-  "extra_cbmc": ["--max-field-sensitivity-array-size", "130"],
   "native_replay": false,
   "timeout": 600
 }
@@ -25,6 +29,11 @@
  */
 #include "verif.h"
 #include "crypto/cryptoImpl.h"
+
+#ifndef CLO
+# define CLO 0
+# define CHI 127
+#endif
 
 static psSha512_t g_ctx;
 static unsigned char g_hash[SHA512_HASHLEN];
@@ -81,7 +90,7 @@ __CPROVER_requires(g_ctx.curlen < 128)
 __CPROVER_requires(g_ctx.length <= 0xFFFFFFFFFFFFFFFFULL - 1024)
 __CPROVER_requires(g_k < 128 && gh_n == 0 && gh_buf_ok == 1)
 POSTS(ENSURES_CLAUSE)
-CANARY_CLAUSE(gh_n != 2)
+CANARY_CLAUSE(gh_n != (CHI <= 111 ? 1 : 2))
 __CPROVER_assigns(g_ctx, __CPROVER_object_whole(g_hash), gh_n, gh_b0, gh_b1, gh_s0, gh_s1, gh_buf_ok)
 ;
 
@@ -106,7 +115,9 @@ HARNESS_BEGIN
     int vr_ret = 0;
     g_ctx.length = in.length;
     Memcpy(g_ctx.state, in.state, sizeof(g_ctx.state));
-    g_ctx.curlen = in.curlen;
+    /* case split over curlen (measured: one symbolic run 250 s; three ranges 40-115 s each);
+       the three ranges [CLO,CHI] = [0,55], [56,111], [112,127] cover every curlen < 128 */
+    g_ctx.curlen = CLO + (in.curlen % (CHI - CLO + 1));
     Memcpy(g_ctx.buf, in.buf, 128);
     Memcpy(g_st, in.st, sizeof(g_st));
     g_k = in.k;
